@@ -87,6 +87,14 @@ def run_schedule(cfg: dict[str, Any], chooser: Chooser) -> dict[str, Any]:
             fut = loop.create_future()
             inv_done.append(fut)
             try:
+                if cfg.get("stale"):
+                    # the invocation absorbed a cancellation request of its own making earlier (a deadline of its own that it handled and
+                    # carried on from): its task's count of requests stays above zero for the rest of its life, and it is alive and well
+                    asyncio.current_task().cancel()  # type: ignore[union-attr]
+                    try:
+                        await asyncio.sleep(0)
+                    except asyncio.CancelledError:
+                        pass
                 try:
                     await sched.gate(f"inv{k}")
                 except asyncio.CancelledError:
@@ -365,6 +373,10 @@ def configs(tier: str):  # noqa: ANN201
     for keys, cancels in ((["A"], [0]), (["A", "A"], [0]), (["A", "A"], [0, 1]), (["A", "B", "A"], [1])):
         for outcome in ("value", "raise"):
             yield {"keys": keys, "cancels": cancels, "expire": False, "limit": 0, "outcome": outcome}
+    # the running invocation carries a stale cancellation count (it absorbed a request of its own): it is still THE invocation to share
+    for keys, cancels in ((["A", "A"], []), (["A", "A", "A"], [1]), (["A", "B", "A"], [0]), (["A", "A"], [0])):
+        for outcome in ("value", "raise"):
+            yield {"keys": keys, "cancels": cancels, "expire": False, "limit": 2, "outcome": outcome, "stale": True}
     # every caller is cancelled and the owner drops the cached function while the invocation is still running
     yield {"keys": ["A", "A"], "cancels": [0, 1], "expire": False, "limit": 1, "outcome": "value", "drop": True}
     yield {"keys": ["A", "B"], "cancels": [0, 1], "expire": False, "limit": 2, "outcome": "value", "drop": True}
@@ -378,6 +390,8 @@ def random_config(rng: random.Random) -> dict[str, Any]:
     cfg = {"keys": keys, "cancels": cancels, "expire": rng.random() < 0.6, "limit": rng.choice([1, 2]), "outcome": rng.choice(["value", "raise", "mixed", "mixed", "cancel-first", "mixed-cancel"])}
     if rng.random() < 0.15:
         cfg["drop"] = True
+    if rng.random() < 0.15:
+        cfg["stale"] = True
     if rng.random() < 0.3:
         cfg["scoped"] = sorted(rng.sample(range(n), rng.randint(1, n)))
     if cfg["expire"]:
